@@ -525,6 +525,18 @@ theorem C09_date_idem (t : Int) : date (date t) = date t := by
 
 theorem C09_date_mono {t u : Int} (h : t ≤ u) : date t ≤ date u := floorDay_mono (clamp_mono h)
 
+/-- **C09 (the hypothesis is exact).** `InRange t` holds exactly when the day window of `t`, as the real functions
+    compute it, contains `t` and is one day long — the harness derives its `inrange` observation from the real
+    `date` / `date_next_day` this way, so the correspondence also checks the hypothesis of the theorems above. -/
+theorem C09_inRange_iff_window (t : Int) :
+    InRange t ↔ (date t ≤ t ∧ t < dateNextDay t ∧ dateNextDay t = date t + dayMs) := by
+  constructor
+  · exact C09_date_window
+  · simp only [InRange, date, dateNextDay, clamp, floorDay, minMs, maxMs, dayMs]
+    intro h
+    repeat' split at h
+    all_goals omega
+
 /-- **C09_breaks_lastDay (boundary of the hypothesis `InRange`, stated so that it stays visible).** In the last
     representable day (year 262142-12-31) and beyond, `date_next_day` falls back to `MAX_UTC` and the window
     `[date t, date_next_day t)` is EMPTY: a row dated there is in no day of the log. No local write can carry such
